@@ -298,10 +298,14 @@ type verifPacketConn struct {
 	n         int
 	err       error
 	failSet   bool
+	closed    int
 }
 
 func (c *verifPacketConn) ReadFrom(p []byte) (int, net.Addr, error) {
 	c.events = append(c.events, 0)
+	if c.closed > 0 {
+		return 0, nil, net.ErrClosed
+	}
 	return c.n, nil, c.err
 }
 
@@ -310,7 +314,7 @@ func (c *verifPacketConn) WriteTo(p []byte, addr net.Addr) (int, error) {
 	c.dst = addr
 	return c.n, c.err
 }
-func (c *verifPacketConn) Close() error        { c.events = append(c.events, 4); return nil }
+func (c *verifPacketConn) Close() error        { c.events = append(c.events, 4); c.closed++; return nil }
 func (c *verifPacketConn) LocalAddr() net.Addr { return nil }
 func (c *verifPacketConn) SetDeadline(t time.Time) error {
 	c.events = append(c.events, 3)
@@ -334,7 +338,8 @@ func (c *verifPacketConn) SetWriteDeadline(t time.Time) error {
 // T5 (UDP broadcast endpoint): the connection handed to the channel sends every write to the broadcast address under
 // a deadline armed for that call from the node's write timeout, reads without any deadline (silence is normal on a
 // broadcast link), reports the outcome of the underlying call unchanged, and the endpoint serves one channel at a time.
-// kind 0: Read, 1: Write, 2: Write with a failing SetWriteDeadline. errKind 0: no error, 1: an error.
+// kind 0: Read, 1: Write, 2: Write with a failing SetWriteDeadline, 3: a channel ends, the next one is served by the
+// same socket, the endpoint is closed. errKind 0: no error, 1: an error.
 func verifHarness_C14_broadcast(kind int, errKind int) {
 	defer verifPatchClock()()
 	n := verifBareNode(V2, 1, 1)
@@ -353,6 +358,22 @@ func verifHarness_C14_broadcast(kind int, errKind int) {
 	_, conn, perr := e.provide()
 	verifAssert(perr == nil && conn != nil, "C14/T5/provides-a-connection")
 	buf := make([]byte, 8)
+	if kind == 3 {
+		// the socket belongs to the endpoint and outlives its channels: after a channel ended (its connection was
+		// closed, as Channel.run does), the next channel still reads from a working socket; closing the endpoint
+		// releases the socket
+		got, err := conn.Read(buf)
+		verifAssert(got == cnt && err == want, "C14/T5/read-outcome-unchanged")
+		conn.Close() //nolint:errcheck
+		_, conn2, perr2 := e.provide()
+		verifAssert(perr2 == nil && conn2 != nil, "C14/T5/provides-a-connection-again")
+		got, err = conn2.Read(buf)
+		verifAssert(got == cnt && err == want, "C14/T5/next-channel-reads-from-a-working-socket")
+		e.close()
+		verifAssert(pc.closed >= 1, "C14/T5/closing-the-endpoint-releases-the-socket")
+		verifReach("C14/T5")
+		return
+	}
 	if kind == 0 {
 		got, err := conn.Read(buf)
 		verifAssert(len(pc.events) == 1 && pc.events[0] == 0, "C14/T5/read-without-deadline")
